@@ -87,6 +87,17 @@ Theorem C03_beyond_end_refused :
 Proof. exact setitem_refuses_beyond_end. Qed.
 Print Assumptions C03_beyond_end_refused.
 
+(* a step below a scalar is refused with IndexError (no tree is produced) *)
+Theorem C03_below_scalar_refused :
+  forall fuel root x v toks p s y rest name ix,
+  has_path_char x = true -> tokenize x = toks ++ y :: rest ->
+  walk root toks p (Leaf s) ->
+  split_name_index y = Ok (name, ix) -> name <> [] -> pstr_eqb name s_dotdot = false ->
+  2 * length toks + 1 <= fuel ->
+  setitem_core fuel root x v = Raise ExIndex.
+Proof. exact setitem_refuses_below_scalar. Qed.
+Print Assumptions C03_below_scalar_refused.
+
 Theorem C03_new_appends_nonvacuous :
   keys_good ap_root /\
   (exists toks p c items segs, tokenize ap_x = toks ++ [br s_new] /\ walks ap_root toks p (Lst c items) segs /\ toks <> []) /\
